@@ -58,18 +58,24 @@ Api == {
   [op |-> "vm_view",      from |-> "ViewMut", to |-> "View",    how |-> "bshr",  cap |-> "shr", reg |-> "same"],
   [op |-> "vm_value_mut", from |-> "ViewMut", to |-> "RefMut",  how |-> "bmut",  cap |-> "mut", reg |-> "root"],
   [op |-> "vm_value",     from |-> "ViewMut", to |-> "Ref",     how |-> "bshr",  cap |-> "shr", reg |-> "root"],
+  \* the _mut set operations: &mut self plus a second mutable view taken by value (impl AsViewMut) ...
+  [op |-> "union_mut",    from |-> "ViewMut", to |-> "SetMut",  how |-> "bmut",  cap |-> "mut", reg |-> "both", from2 |-> "ViewMut", how2 |-> "move"],
+  [op |-> "inter_mut",    from |-> "ViewMut", to |-> "SetMut",  how |-> "bmut",  cap |-> "mut", reg |-> "both", from2 |-> "ViewMut", how2 |-> "move"],
+  \* ... or a read-only operand (impl AsView): a shared borrow of a second mutable view
+  [op |-> "diff_mut",     from |-> "ViewMut", to |-> "SetMut",  how |-> "bmut",  cap |-> "mut", reg |-> "same", from2 |-> "ViewMut", how2 |-> "bshr"],
   [op |-> "v_left",       from |-> "View",    to |-> "View",    how |-> "copy",  cap |-> "shr", reg |-> "left"],
   [op |-> "v_iter",       from |-> "View",    to |-> "Iter",    how |-> "copy",  cap |-> "shr", reg |-> "same"],
   [op |-> "next_mut",     from |-> "IterMut", to |-> "RefMut",  how |-> "yield", cap |-> "mut", reg |-> "next"],
   [op |-> "next",         from |-> "Iter",    to |-> "Ref",     how |-> "yield", cap |-> "shr", reg |-> "next"] }
 ApiOf(op) == CHOOSE a \in Api : a.op = op
+Binary(a) == "from2" \in DOMAIN a
 
 (***************************************************************************)
 (* Handles.  handle i = [kind, region, cap, par (the handle whose use       *)
 (* conflicts with this one: the receiver, or for yield/copy the receiver's *)
 (* own guardian), how, born (statement index), nyield]                     *)
 (***************************************************************************)
-Map0 == [kind |-> "Map", region |-> Whole, cap |-> "mut", par |-> 0, how |-> "root", born |-> 0, ny |-> 0, recv |-> 0]
+Map0 == [kind |-> "Map", region |-> Whole, cap |-> "mut", par |-> 0, how |-> "root", born |-> 0, ny |-> 0, recv |-> 0, par2 |-> 0, how2 |-> "none"]
 
 VARIABLES prog, hs     \* statements so far; handle table (sequence, handle 0 is hs[1])
 vars == <<prog, hs>>
@@ -89,16 +95,19 @@ RegionOf(a, src) ==
 Guardian(a, src) == IF a.how \in {"yield", "copy"} THEN H(src).par ELSE src
 
 NewHandle(a, src, region, stmt) ==
-    [kind |-> a.to, region |-> region, cap |-> a.cap, par |-> Guardian(a, src), how |-> a.how, born |-> stmt, ny |-> 0, recv |-> src]
+    [kind |-> a.to, region |-> region, cap |-> a.cap, par |-> Guardian(a, src), how |-> a.how, born |-> stmt, ny |-> 0, recv |-> src,
+     par2 |-> 0, how2 |-> "none"]
 
 CreateStmts ==
-    {[s |-> "create", op |-> a.op, src |-> i] : a \in {x \in Api : x.op \in Ops}, i \in 0..NH}
+    {[s |-> "create", op |-> a.op, src |-> i] : a \in {x \in Api : x.op \in Ops /\ ~Binary(x)}, i \in 0..NH}
+    \cup {[s |-> "create", op |-> a.op, src |-> i, src2 |-> j] : a \in {x \in Api : x.op \in Ops /\ Binary(x)}, i \in 1..NH, j \in 1..NH}
 UseStmts == {[s |-> u, src |-> i] : u \in {"use", "use_mut"}, i \in 1..NH}
 
 NumCreates == Cardinality({k \in 1..Len(prog) : prog[k].s = "create"})
 
 Applicable(st) ==
-    IF st.s = "create" THEN ApiOf(st.op).from = H(st.src).kind /\ NumCreates < MaxCreates
+    IF st.s = "create" THEN /\ ApiOf(st.op).from = H(st.src).kind /\ NumCreates < MaxCreates
+                            /\ Binary(ApiOf(st.op)) => st.src2 # st.src /\ ApiOf(st.op).from2 = H(st.src2).kind
     ELSE \* a write through a handle that only reads makes no sense
          st.s = "use" \/ H(st.src).cap = "mut"
 
@@ -114,6 +123,10 @@ Next == /\ Len(prog) < MaxStmts
                         THEN hs' = [hs EXCEPT ![st.src + 1].ny = @] \o
                                    <<NewHandle([a EXCEPT !.to = "ViewMut"], st.src, SubRegion(H(st.src).region, "left"), k),
                                      NewHandle([a EXCEPT !.to = "ViewMut"], st.src, SubRegion(H(st.src).region, "right"), k)>>
+                        ELSE IF Binary(a)
+                        THEN hs' = hs \o <<[NewHandle(a, st.src, IF a.reg = "both" THEN H(st.src).region \cup H(st.src2).region
+                                                                    ELSE H(st.src).region, k)
+                                              EXCEPT !.par2 = st.src2, !.how2 = a.how2]>>
                         ELSE hs' = [hs EXCEPT ![st.src + 1].ny = IF a.how = "yield" THEN @ + 1 ELSE @] \o
                                    <<NewHandle(a, st.src, RegionOf(a, st.src), k)>>
                 ELSE hs' = hs
@@ -122,14 +135,21 @@ Next == /\ Len(prog) < MaxStmts
 (* Judgements on a complete program                                        *)
 (***************************************************************************)
 \* statements at which handle i is touched: used, or a call is made on it
-Touches(i) == {k \in 1..Len(prog) : prog[k].src = i}
+Touches(i) == {k \in 1..Len(prog) : prog[k].src = i \/ ("src2" \in DOMAIN prog[k] /\ prog[k].src2 = i)}
+\* the handles statement k touches
+Touched(k) == {prog[k].src} \cup (IF "src2" \in DOMAIN prog[k] THEN {prog[k].src2} ELSE {})
 \* ... with write access to entries: a write, or a call that hands out a write-capable handle
 MutTouch(k) == \/ prog[k].s = "use_mut"
                \/ prog[k].s = "create" /\ ApiOf(prog[k].op).cap = "mut"
+\* ... through handle x in particular (the read-only operand of difference_mut is only read)
+MutTouchOf(k, x) == IF "src2" \in DOMAIN prog[k] /\ prog[k].src2 = x /\ prog[k].src # x
+                    THEN ApiOf(prog[k].op).how2 = "move" ELSE MutTouch(k)
 
 RECURSIVE Anc(_, _)
-Anc(i, j) == \* i is a proper ancestor of j along the guardian relation
-    IF j = 0 THEN FALSE ELSE H(j).par = i \/ Anc(i, H(j).par)
+Anc(i, j) == \* i is a proper ancestor of j along the guardian relation(s)
+    IF j = 0 THEN FALSE
+    ELSE \/ H(j).par = i \/ Anc(i, H(j).par)
+         \/ H(j).par2 # 0 /\ (H(j).par2 = i \/ Anc(i, H(j).par2))
 \* last statement at which handle i or anything guarded by it is touched
 LastNeed(i) == LET S == UNION {Touches(j) : j \in {x \in 0..NH : x = i \/ Anc(i, x)}} IN
                IF S = {} THEN H(i).born ELSE CHOOSE k \in S : \A l \in S : l <= k
@@ -143,24 +163,34 @@ RegionAt(x, k) == IF H(x).kind \in {"IterMut", "Iter"} THEN H(x).region \ Yielde
 \* AliasFree (semantic, ignores receiver types): statement k touches handle x while another handle y
 \* that reaches a common entry is still needed -- a hazard if y can write, or if the touch writes.
 \* Touching something y itself guards is not a hazard (y is merely suspended meanwhile).
-Hazard(k, y) ==
-    LET x == prog[k].src IN
+HazardOf(k, x, y) ==
     /\ y # x /\ ~Anc(y, x)
     /\ H(y).born < k /\ k <= LastNeed(y)
     /\ RegionAt(x, k) \cap RegionAt(y, k) # {}
-    /\ (H(y).cap = "mut" \/ MutTouch(k))
-AliasFree == \A k \in 1..Len(prog) : \A y \in 1..NH : ~Hazard(k, y)
+    /\ (H(y).cap = "mut" \/ MutTouchOf(k, x))
+\* a binary operation whose two operands reach a common entry aliases by itself
+SelfAlias(k) == /\ "src2" \in DOMAIN prog[k]
+                /\ RegionAt(prog[k].src, k) \cap RegionAt(prog[k].src2, k) # {}
+AliasFree == \A k \in 1..Len(prog) : /\ ~SelfAlias(k)
+                                       /\ \A x \in Touched(k) : \A y \in 1..NH : ~HazardOf(k, x, y)
 
 \* Typed (the borrow checker, from the receiver modes only; regions play no role): the receiver
 \* has not been moved out, and nothing that still borrows from it is invalidated by this touch.
 MovedBefore(x, k) == \E k2 \in 1..(k - 1) :
-                        prog[k2].s = "create" /\ prog[k2].src = x /\ ApiOf(prog[k2].op).how = "move"
+                        /\ prog[k2].s = "create"
+                        /\ \/ prog[k2].src = x /\ ApiOf(prog[k2].op).how = "move"
+                           \/ "src2" \in DOMAIN prog[k2] /\ prog[k2].src2 = x /\ ApiOf(prog[k2].op).how2 = "move"
+\* the loan by which a direct dependant z holds on to x is a shared one
+DirectChild(z, x) == H(z).par = x \/ H(z).par2 = x
+LinkShared(z, x) == IF H(z).par2 = x /\ H(z).par # x THEN H(z).how2 = "bshr" ELSE H(z).cap = "shr"
+MovedInto(z, x) == \/ H(z).recv = x /\ H(z).how = "move"
+                   \/ H(z).par2 = x /\ H(z).how2 = "move"
 Typed ==
-    \A k \in 1..Len(prog) :
-      LET x == prog[k].src IN
+    \A k \in 1..Len(prog) : \A x \in Touched(k) :
       /\ ~MovedBefore(x, k)
-      /\ \A y \in 1..NH :
-           (Anc(x, y) /\ H(y).born < k /\ k <= LastNeed(y)) => (H(y).cap = "shr" /\ ~MutTouch(k))
+      /\ \A z \in 1..NH :
+           (DirectChild(z, x) /\ ~MovedInto(z, x) /\ H(z).born < k /\ k <= LastNeed(z))
+              => (LinkShared(z, x) /\ ~MutTouchOf(k, x))
 
 Sound == Typed => AliasFree
 
